@@ -124,3 +124,63 @@ func vxFeltSym(name string) *felt.Felt {
 	b := vx.FeltBytes(name)
 	return new(felt.Felt).SetBytes(b[:])
 }
+
+// C20-H8: two views of different length over ONE stored chain - an older reader's view aligned to head h
+// ([h+1 .. tip]) and a newer reader's view trimmed to head h+1 ([h+2 .. tip]) while the poller has not
+// advanced the stored chain yet - share their nodes. Each reads the state at the tip; in either order, and
+// twice, each gets the base overlaid with ITS OWN blocks only: the short view never sees the block below its
+// range (that block is final now, possibly with other content), the long view never loses it. Whatever a
+// node memoises about merged diffs must not leak between views.
+func VxC20ViewsOfDifferentLengthDoNotShareOverlays() {
+	vx.Bound("stored chain of 3 pre-confirmed blocks writing one slot of contract X each (symbolic values) or not; views aligned to the stored oldest block and to the next one; state at the tip read through both, in either order, each twice")
+	oldest := uint64(10)
+	x := felt.NewFromUint64[felt.Felt](0x77)
+	slot := felt.NewFromUint64[felt.Felt](0x5)
+	var entries []*pending.PreConfirmed
+	vals := make([]*felt.Felt, 3)
+	for i := 0; i < 3; i++ {
+		e := vxEntry(oldest+uint64(i), "e")
+		if i == 0 || vx.Bool("writes-slot") {
+			vals[i] = vxFeltSym("val")
+			e.StateUpdate.StateDiff.StorageDiffs[*x] = map[felt.Felt]*felt.Felt{*slot: vals[i]}
+		}
+		entries = append(entries, e)
+	}
+	c, err := NewChain(entries...)
+	vx.Assert(err == nil, "newchain-accepts-contiguous")
+	s := NewChainStorage()
+	s.inner.Store(&c)
+	long := s.SnapshotForBlock(oldest)
+	short := s.SnapshotForBlock(oldest + 1)
+	vx.Assert(long.Length() == 3 && short.Length() == 2, "views-cover-their-ranges")
+	tip := oldest + 2
+	read := func(v *ChainReader, from int, label string) {
+		st, _, serr := v.PreConfirmedStateAt(tip, vxBaseReader2{})
+		vx.Assert(serr == nil, "state-opens")
+		if serr != nil {
+			return
+		}
+		var want *felt.Felt
+		for i := from; i < 3; i++ {
+			if vals[i] != nil {
+				want = vals[i]
+			}
+		}
+		got, gerr := st.ContractStorage(x, slot)
+		if want != nil {
+			vx.Assert(gerr == nil && got.Equal(want), label)
+		} else {
+			vx.Cover("short-view-falls-through-to-the-base")
+			vx.Assert(gerr != nil, label)
+		}
+	}
+	if vx.Choice("long-view-reads-first", 2) == 1 {
+		read(&long, 0, "long-view-is-the-base-overlaid-with-its-own-blocks")
+		read(&short, 1, "short-view-is-the-base-overlaid-with-its-own-blocks")
+	} else {
+		read(&short, 1, "short-view-is-the-base-overlaid-with-its-own-blocks")
+		read(&long, 0, "long-view-is-the-base-overlaid-with-its-own-blocks")
+	}
+	read(&long, 0, "long-view-is-the-base-overlaid-with-its-own-blocks")
+	read(&short, 1, "short-view-is-the-base-overlaid-with-its-own-blocks")
+}
